@@ -50,6 +50,27 @@ class MyMapping(collections.abc.Mapping):
         return 'MyMapping(%r)' % (self._d,)
 
 
+class LazyView(collections.abc.Mapping):
+    """A read-only view that builds the view of a nested dict on access: every
+    __getitem__ of a dict-valued key returns a *new* wrapper object (nothing keeps it
+    alive, so its address is free for the next one)."""
+    def __init__(self, d):
+        self._d = d
+
+    def __getitem__(self, k):
+        v = self._d[k]
+        return LazyView(v) if type(v) is dict else v
+
+    def __iter__(self):
+        return iter(self._d)
+
+    def __len__(self):
+        return len(self._d)
+
+    def __repr__(self):
+        return 'LazyView(%r)' % (self._d,)
+
+
 KEYS8 = ['password', 'Admin_Pass', 'x_token_y', 'passwor', 'user', 3, ('password',), b'password']
 LEAVES = ['plain', 'password=abc', b'bytes', 7, None, ['password=abc'], 1.5,
           [{'password': 'in-a-list'}], ('t', {'secret': 'x'})]
@@ -60,6 +81,7 @@ SECRET_LEAVES = ["{'adminPass': 'TL0EfN33'}", 'OS_PASSWORD=x1', '<adminPass>x2</
 KEYS5 = ['password', 'x_token_y', 'user', 3, b'password']
 LEAVES4 = ['plain', '--token abc', 7, [{'password': 'in-a-list'}]]
 CONTAINERS = ['dict', 'MyMapping', 'proxy']
+CONTAINERS4 = CONTAINERS + ['lazy']
 MASKS = ['***', '<hidden>']
 
 
@@ -68,6 +90,8 @@ def wrap(d, kind):
         return dict(d)
     if kind == 'MyMapping':
         return MyMapping(d)
+    if kind == 'lazy':
+        return LazyView({k: (v._d if isinstance(v, LazyView) else v) for k, v in d.items()})
     return types.MappingProxyType(dict(d))
 
 
@@ -93,6 +117,8 @@ def _copy_leaf(v):
 
 def snapshot(x, seen=None):
     """Deep structural snapshot: types, identities of containers, contents."""
+    if isinstance(x, LazyView):
+        return ('lazy', snapshot(x._d))
     if isinstance(x, collections.abc.Mapping):
         return ('map', type(x).__name__, id(x),
                 tuple((repr(k), id(v), snapshot(v)) for k, v in x.items()))
@@ -233,6 +259,37 @@ def run(ctx):
     if full:
         l4 = deeper(KEYS5[:4], LEAVES4[:3], 2, representatives(l3, 8), CONTAINERS)
         groups.append(('depth4', l4))
+    # three and four mapping-valued siblings (all containers, incl. views built on access)
+    smalls = [(), (('x', ('leaf', 1)),), (('y', ('leaf', 2)),), (('password', ('leaf', 'p')),),
+              (('msg', ('leaf', 'token=abc')), ('z', ('leaf', None)))]
+    sib = []
+    for n in (3, 4):
+        for combo in itertools.product(range(len(smalls)), repeat=n):
+            for kind in CONTAINERS4:
+                inner = 'dict' if kind == 'lazy' else CONTAINERS[(len(sib)) % 3]
+                sib.append(('map', kind, tuple((('k%d' % i), ('map', inner, smalls[c]))
+                                               for i, c in enumerate(combo))))
+    groups.append(('siblings', sib))
+    # every sanitize key in every rendering inside a string stored under an innocent key
+    renderings = ['%s=abc', "'%s': 'abc'", '<%s>abc</%s>', '--%s abc', '%s = "abc"', '"%s":"abc"',
+                  "u'%s': u'abc'", '%s abc', "{'x_%s': 'abc'}", 'swift --os-%s abc stat']
+    strs = []
+    for k in KEYS:
+        for form in (k, k.upper()):
+            for r in renderings:
+                leaf = r.replace('%s', form)
+                strs.append(('map', CONTAINERS4[len(strs) % 4], (('cmd', ('leaf', leaf)),)))
+    groups.append(('secret-strings-all-keys', strs))
+    # two string values of one call that differ only in letter case (or not at all)
+    variants = ['Password=abc', 'password=abc', 'PASSWORD=abc', 'password=ABC', 'Hello', 'hello',
+                '--Token x', '--token x']
+    pairs = []
+    for a, b in itertools.product(variants, repeat=2):
+        pairs.append(('map', 'dict', (('a', ('leaf', a)), ('b', ('leaf', b)))))
+        pairs.append(('map', 'dict', (('a', ('leaf', a)), ('sub', ('map', 'dict', (('b', ('leaf', b)),))))))
+        pairs.append(('map', 'lazy', (('s1', ('map', 'dict', (('a', ('leaf', a)),))),
+                                      ('s2', ('map', 'dict', (('b', ('leaf', b)),))))))
+    groups.append(('case-variant-strings', pairs))
     for name, specs in groups:
         E.run(rep, name, [specs, MASKS], _case)
     # every sanitize key embedded in a string key, three cases, three positions
@@ -268,7 +325,8 @@ def run(ctx):
         'depth1': '%d mappings: all key subsets (width <= %d) of %r x all leaves' % (
             len(l1_full) + len(l1_w3), 3, [repr(k) for k in KEYS8]),
         'depth2': len(l2), 'depth3': len(l3),
-        'containers': CONTAINERS, 'masks': MASKS, 'embedded_key_cases': len(emb)}
+        'siblings': len(sib), 'secret_strings_all_keys': len(strs), 'case_variant_pairs': len(pairs),
+        'containers': CONTAINERS4, 'masks': MASKS, 'embedded_key_cases': len(emb)}
     return rep
 
 
